@@ -62,12 +62,12 @@ theorem builtin_clause_matches :
 /-- Handler selection: when the body of a block raises error (c, a), the FIRST clause (in text order)
 that matches runs, from the state the error left with the error saved as the context's record (what `error` reads);
 its outcome — value, break/continue/return, or a new error — is the outcome of the block; when the clause ends without error the
-record is set back to what it was when the error was caught (`handlerExit s'.lastErr`). -/
+record is set back to what it was when the BLOCK was entered (`handlerExit s.lastErr`, repo 8256736). -/
 theorem handler_selection (funcs : List Func) (depth fuel : Nat) (body : List Stmt) (catches : List (String × List Stmt))
     (s s' : St) (c : Nat) (a : Bytes) (n : String) (h : List Stmt)
     (hb : execList funcs depth fuel body s = (.err c a, s')) (hc : (c == oofCode) = false)
     (hm : catches.find? (fun cl => catchMatches cl.1 c a) = some (n, h)) :
-    execBlock funcs depth (fuel + 1) body catches s = handlerExit s'.lastErr (execList funcs depth fuel h { s' with lastErr := (c, a) }) := by
+    execBlock funcs depth (fuel + 1) body catches s = handlerExit s.lastErr (execList funcs depth fuel h { s' with lastErr := (c, a) }) := by
   simp [execBlock, hb, hc, hm]
 
 /-- No matching clause: the error leaves the block unchanged, for the next enclosing block or the host. -/
@@ -132,7 +132,7 @@ theorem inner_unmatched_reaches_outer (funcs : List Func) (depth fuel : Nat) (ib
     (hin : icatches.find? (fun cl => catchMatches cl.1 c a) = none)
     (hout : ocatches.find? (fun cl => catchMatches cl.1 c a) = some (n, h)) :
     execBlock funcs depth (fuel + 4) (.beginS ibody icatches :: rest) ocatches s =
-      handlerExit s'.lastErr (execList funcs depth (fuel + 3) h { s' with lastErr := (c, a) }) := by
+      handlerExit s.lastErr (execList funcs depth (fuel + 3) h { s' with lastErr := (c, a) }) := by
   have h1 : execBlock funcs depth (fuel + 1) ibody icatches (tick s) = (.err c a, s') :=
     unmatched_propagates funcs depth fuel ibody icatches _ s' c a hb hc hin
   have h2 : exec funcs depth (fuel + 2) (.beginS ibody icatches) s = (.err c a, s') := by
@@ -148,7 +148,7 @@ theorem inner_matching_handles (funcs : List Func) (depth fuel : Nat) (ibody : L
     (hbud : s.budget ≠ 0)
     (hb : execList funcs depth fuel ibody (tick s) = (.err c a, s')) (hc : (c == oofCode) = false)
     (hin : icatches.find? (fun cl => catchMatches cl.1 c a) = some (n, h)) :
-    exec funcs depth (fuel + 2) (.beginS ibody icatches) s = handlerExit s'.lastErr (execList funcs depth fuel h { s' with lastErr := (c, a) }) := by
+    exec funcs depth (fuel + 2) (.beginS ibody icatches) s = handlerExit s.lastErr (execList funcs depth fuel h { s' with lastErr := (c, a) }) := by
   rw [exec_begin funcs depth (fuel + 1) ibody icatches s hbud]
   exact handler_selection funcs depth fuel ibody icatches _ s' c a n h hb hc hin
 
@@ -166,7 +166,7 @@ theorem error_in_callee_reaches_callers_block (funcs : List Func) (depth fuel : 
     (hc : (c == oofCode) = false)
     (hm : catches.find? (fun cl => catchMatches cl.1 c a) = some (n, h)) :
     execBlock funcs depth (fuel + 5) (.doS (.fcall name args) :: rest) catches s =
-      handlerExit s1.lastErr (execList funcs depth (fuel + 4) h
+      handlerExit s.lastErr (execList funcs depth (fuel + 4) h
         { s1 with out := sc.out, budget := sc.budget, lastErr := (c, a) }) := by
   have hbud' : (s.budget == 0) = false := by simpa using hbud
   have h1 : callFunc funcs depth (fuel + 1) name args (tick s) =
@@ -223,7 +223,7 @@ theorem continues_after_handled (funcs : List Func) (depth fuel : Nat) (body res
     (hm : catches.find? (fun cl => catchMatches cl.1 c a) = some (n, h))
     (hh : execList funcs depth fuel h { s' with lastErr := (c, a) } = (.ok .norm, s2)) :
     execList funcs depth (fuel + 3) (.beginS body catches :: rest) s =
-      execList funcs depth (fuel + 2) rest { s2 with lastErr := s'.lastErr } := by
+      execList funcs depth (fuel + 2) rest { s2 with lastErr := s.lastErr } := by
   have h1 := inner_matching_handles funcs depth fuel body catches s s' c a n h hbud hb hc hm
   rw [hh, handlerExit_ok] at h1
   simp only [execList, bind_app, h1, beq_self_eq_true, if_true, evalM_ite_app]
@@ -335,26 +335,25 @@ theorem handler_sees_its_error (funcs : List Func) (depth fuel k : Nat) (body : 
     (s s' : St) (c : Nat) (a : Bytes) (n : String) (h : List Stmt)
     (hb : execList funcs depth fuel body s = (.err c a, s')) (hc : (c == oofCode) = false)
     (hm : catches.find? (fun cl => catchMatches cl.1 c a) = some (n, h)) :
-    execBlock funcs depth (fuel + 1) body catches s = handlerExit s'.lastErr (execList funcs depth fuel h { s' with lastErr := (c, a) }) ∧
+    execBlock funcs depth (fuel + 1) body catches s = handlerExit s.lastErr (execList funcs depth fuel h { s' with lastErr := (c, a) }) ∧
     eval funcs depth (k + 1) .errorE { s' with lastErr := (c, a) } = (errorTuple (c, a), { s' with lastErr := (c, a) }) :=
   ⟨handler_selection funcs depth fuel body catches s s' c a n h hb hc hm, eval_error funcs depth k _⟩
 
-/-- **An inner block that handles an error of its own RESTORES the record** (repo 72036d1): when its clause ends without error the
-record is again what it was when the inner error was caught — `s'.lastErr`, the record of the state the failing inner body left. When
-that failing body did not itself run through a FAILING clause its record is still the one the block started with (`hkeep`; for
-bodies without exception clauses: `record_kept_without_clauses`), so an enclosing clause that is still running reads ITS error
-again: `error@N` describes the clause's error before and after the inner block. -/
+/-- **An inner block that handles an error of its own RESTORES the record** (repo 72036d1 + 8256736): when its clause ends without
+error the record is again what it was when the inner block was ENTERED — whatever the failing inner body and the clause did to it in
+between (a clause of the body that failed leaves its own error behind: that is not what is restored) —, so an enclosing clause that is
+still running reads ITS error again: `error@N` describes the clause's error before and after the inner block. -/
 theorem inner_handled_error_restores_record (funcs : List Func) (depth fuel : Nat) (ibody : List Stmt)
     (icatches : List (String × List Stmt)) (s s' s2 : St) (c : Nat) (a : Bytes) (n : String) (h : List Stmt) (fl : Flow)
     (hbud : s.budget ≠ 0)
     (hb : execList funcs depth fuel ibody (tick s) = (.err c a, s')) (hc : (c == oofCode) = false)
     (hin : icatches.find? (fun cl => catchMatches cl.1 c a) = some (n, h))
     (hh : execList funcs depth fuel h { s' with lastErr := (c, a) } = (.ok fl, s2)) :
-    exec funcs depth (fuel + 2) (.beginS ibody icatches) s = (.ok fl, { s2 with lastErr := s'.lastErr }) ∧
-    (s'.lastErr = s.lastErr → (exec funcs depth (fuel + 2) (.beginS ibody icatches) s).2.lastErr = s.lastErr) := by
-  have e : exec funcs depth (fuel + 2) (.beginS ibody icatches) s = (.ok fl, { s2 with lastErr := s'.lastErr }) := by
+    exec funcs depth (fuel + 2) (.beginS ibody icatches) s = (.ok fl, { s2 with lastErr := s.lastErr }) ∧
+    (exec funcs depth (fuel + 2) (.beginS ibody icatches) s).2.lastErr = s.lastErr := by
+  have e : exec funcs depth (fuel + 2) (.beginS ibody icatches) s = (.ok fl, { s2 with lastErr := s.lastErr }) := by
     rw [inner_matching_handles funcs depth fuel ibody icatches s s' c a n h hbud hb hc hin, hh, handlerExit_ok]
-  exact ⟨e, fun hk => by rw [e]; exact hk⟩
+  exact ⟨e, by rw [e]⟩
 
 /-- **No clause entered ⇒ record unchanged** (every outcome): statements without exception clauses — loops, conditionals, blocks without
 clauses, calls of functions WITH clauses of their own — leave the context's error record exactly as they found it, whether they end
@@ -369,31 +368,35 @@ theorem expression_keeps_record (funcs : List Func) (depth fuel : Nat) (e : Expr
   ((err_all funcs fuel).1 depth e).h s
 
 /-- **Inside a clause `error@N` describes the clause's error before and after an inner block that handles an error of its own** — for
-every inner block whose BODY has no exception clauses (its clauses are arbitrary): the record after the block is the record before it.
-(For bodies with clauses that can fail the statement is false: `record_stale_after_failed_inner_clause_witness`.) -/
+EVERY inner block (body and clauses arbitrary, clauses of the body that fail included): the record after the block is the record
+before it. -/
 theorem inner_block_keeps_enclosing_record (funcs : List Func) (depth fuel : Nat) (ibody : List Stmt)
     (icatches : List (String × List Stmt)) (s s' s2 : St) (c : Nat) (a : Bytes) (n : String) (h : List Stmt) (fl : Flow)
-    (hbud : s.budget ≠ 0) (hnc : noClauseL ibody = true)
+    (hbud : s.budget ≠ 0)
     (hb : execList funcs depth fuel ibody (tick s) = (.err c a, s')) (hc : (c == oofCode) = false)
     (hin : icatches.find? (fun cl => catchMatches cl.1 c a) = some (n, h))
     (hh : execList funcs depth fuel h { s' with lastErr := (c, a) } = (.ok fl, s2)) :
-    (exec funcs depth (fuel + 2) (.beginS ibody icatches) s).2.lastErr = s.lastErr := by
-  apply (inner_handled_error_restores_record funcs depth fuel ibody icatches s s' s2 c a n h fl hbud hb hc hin hh).2
-  have := record_kept_without_clauses funcs depth fuel ibody (tick s) hnc
-  rw [hb] at this
-  exact this
+    (exec funcs depth (fuel + 2) (.beginS ibody icatches) s).2.lastErr = s.lastErr :=
+  (inner_handled_error_restores_record funcs depth fuel ibody icatches s s' s2 c a n h fl hbud hb hc hin hh).2
+
+/-- **FULL STATEMENT — code that ends without error leaves the error record alone**: for EVERY statement list (any nesting of blocks,
+clauses that fail and are handled further out, loops, calls), every state and every fuel, when the run ends without error (normally or
+with a pending break/continue/return) the record is what it was at the start. `Lemmas.ok_all`, fifth mutual induction. True since repo
+8256736 (`outer` taken on entry of the block); before it the statement needed the proviso `flatL` (witness kept below as a regression
+witness of finding C07.error_record_stale_after_failed_inner_clause). -/
+theorem ok_run_keeps_record (funcs : List Func) (depth fuel : Nat) (body : List Stmt) (s s2 : St) (fl : Flow)
+    (hrun : execList funcs depth fuel body s = (.ok fl, s2)) : s2.lastErr = s.lastErr :=
+  ((ok_all funcs fuel).2.1 depth body).h s fl s2 hrun
 
 /-- **Inside a clause `error@N` describes the clause's error at EVERY point** of its body, whatever inner blocks handled errors of
-their own before that point, nested however deep inside their clauses — provided every block WITH exception clauses met on the way has
-a body WITHOUT exception clauses (`flatL`; what the clauses contain is arbitrary). `pre` is any prefix of the clause body that ended
-normally (or with a pending break/continue/return) from the state `st0` in which the clause started (record = the clause's error
-(c, a), `handler_selection`): at that point `error` still evaluates to `errorTuple (c, a)`. `Lemmas.ok_all`, fifth mutual induction.
-(Without the proviso: `record_stale_after_failed_inner_clause_witness`.) -/
+their own before that point, nested however deep inside their clauses, whether or not clauses of theirs failed. `pre` is any prefix of the
+clause body that ended normally (or with a pending break/continue/return) from the state `st0` in which the clause started (record = the
+clause's error (c, a), `handler_selection`): at that point `error` still evaluates to `errorTuple (c, a)`. -/
 theorem error_describes_clause_error_at_every_point (funcs : List Func) (depth fuel k : Nat) (pre : List Stmt) (st0 s1 : St)
-    (c : Nat) (a : Bytes) (fl : Flow) (hflat : flatL pre = true) (h0 : st0.lastErr = (c, a))
+    (c : Nat) (a : Bytes) (fl : Flow) (h0 : st0.lastErr = (c, a))
     (hrun : execList funcs depth fuel pre st0 = (.ok fl, s1)) :
     eval funcs depth (k + 1) .errorE s1 = (errorTuple (c, a), s1) := by
-  have hk : s1.lastErr = st0.lastErr := ((ok_all funcs fuel).2.1 depth pre hflat).h st0 fl s1 hrun
+  have hk : s1.lastErr = st0.lastErr := ok_run_keeps_record funcs depth fuel pre st0 s1 fl hrun
   rw [eval_error, hk, h0]
 
 /-- hypotheses at work: the clause of E1 runs `begin raise E2; exception when E2 then begin raise E3; exception when E3 then nop; end; end;` (a block
@@ -408,25 +411,19 @@ theorem outer_handler_keeps_its_error_witness :
         .beginS [.raiseS "E2"] [("E2", [.nop])], .printS [.item .errorE 1, .item .errorE 3]])]] {}).2.out =
       [[10], [49], [69, 49], [10], [49], [69, 49]] := by decide +kernel
 
-/- FULL STATEMENT ("inside a clause error@N describes the clause's error at EVERY point, whatever inner blocks handled"):
-     ∀ funcs depth fuel body s fl s2, execList funcs depth fuel body s = (.ok fl, s2) → s2.lastErr = s.lastErr
-   STILL FALSE for the repaired code: docatch takes `outer = ctx.error()` when the error is CAUGHT, and an error that comes out of an
-   inner clause that FAILED carries that clause's record ("kept for debug") — which the catching block then "restores". Negation at a
-   witness run on the library: `record_stale_after_failed_inner_clause_witness` (finding C07.error_record_stale_after_failed_inner_clause).
-   Proved: the statement for one block (`inner_handled_error_restores_record`) and for all code without exception clauses, any
-   outcome (`record_kept_without_clauses`). -/
-/-- the witness: inside the clause of E0 a block whose body's inner clause (of E1) fails with E2 handles E2; afterwards the clause of E0
-reads E1: `begin raise E0; exception when E0 then print error@1; begin begin raise E1; exception when E1 then raise E2; end;
-exception when E2 then print error@1; end; print error@1; end;` prints E0, E2, E1. -/
-theorem record_stale_after_failed_inner_clause_witness :
+/-- regression witness of finding C07.error_record_stale_after_failed_inner_clause (fixed in 8256736): inside the clause of E0 a block
+whose body's inner clause (of E1) fails with E2 handles E2; afterwards the clause of E0 reads E0 again: `begin raise E0; exception when
+E0 then print error@1; begin begin raise E1; exception when E1 then raise E2; end; exception when E2 then print error@1; end;
+print error@1; end;` prints E0, E2, E0 (was: E0, E2, E1). -/
+theorem record_restored_after_failed_inner_clause_witness :
     (execList [] 0 40 [.beginS [.raiseS "E0"] [("E0", [.printS [.item .errorE 1],
         .beginS [.beginS [.raiseS "E1"] [("E1", [.raiseS "E2"])]] [("E2", [.printS [.item .errorE 1]])],
         .printS [.item .errorE 1]])]] {}).2.out =
-      [[10], [69, 49], [10], [69, 50], [10], [69, 48]] := by decide +kernel
+      [[10], [69, 48], [10], [69, 50], [10], [69, 48]] := by decide +kernel
 
 /-- **A clause that fails leaves the record as it is** ("kept for debug"): nothing clears it until another clause of the same context
 ends — so it is what `error` reads afterwards outside every handler (a later program in the same context; a later call that gets the
-error is caught by an enclosing block — finding C07.error_record_stale_after_failed_inner_clause). -/
+error is caught by an enclosing block restores the record of ITS entry: `ok_run_keeps_record`). -/
 theorem failed_handler_keeps_record (funcs : List Func) (depth fuel : Nat) (body : List Stmt) (catches : List (String × List Stmt))
     (s s' s2 : St) (c c2 : Nat) (a a2 : Bytes) (n : String) (h : List Stmt)
     (hb : execList funcs depth fuel body s = (.err c a, s')) (hc : (c == oofCode) = false)
